@@ -135,7 +135,10 @@ func Harness_C16_routing() {
 					vx_reach("C16.rt.expired")
 				}
 			}
-		case 2: // the peer announces a connection ID of its own
+		case 2: // the peer announces a connection ID of its own (a conformant peer: never more than the 4 we allow, C16 manager harness covers the limit)
+			if peerSeq >= 3 {
+				continue
+			}
 			peerSeq++
 			tok := protocol.StatelessResetToken{0x70, byte(peerSeq)}
 			err := c.connIDManager.Add(&wire.NewConnectionIDFrame{SequenceNumber: peerSeq, ConnectionID: protocol.ParseConnectionID([]byte{0xbb, byte(peerSeq), 0, 0}), StatelessResetToken: tok})
